@@ -128,6 +128,59 @@ Theorem C06_sound_doc_id31 :
 Proof. exact same_id_248. Qed.
 Print Assumptions C06_sound_doc_id31.
 
+(* Serialized (non-merklized) schemas, every assignment of field paths to the four data slots
+   (every subset): a credential accepted for a claim has, for each slot, either no path and a zero
+   slot, or a path whose field lookup SUCCEEDS and whose encoding (32 bytes) is the claim's slot.
+   [slot_holds mz path slot] is: if path = "" then slot = 0
+                                 else exists v, m_field mz path = Ok v /\ slot = v mod 2^256. *)
+Theorem C06_slot_subset_sound :
+  forall (O : oracles) (c : cred) (cl : claim) (mz : mzview) (ty : string) (sl : slots),
+  verify_binding O c cl = Ok tt -> cred_view c = Ok (mz, ty, sl, true) ->
+  exists a sp, get_serialization_attr c ty = Ok a /\ parse_serialization_attr a = Ok sp /\
+    slot_holds mz (p_index_a sp) (i2 cl) /\ slot_holds mz (p_index_b sp) (i3 cl) /\
+    slot_holds mz (p_value_a sp) (v2 cl) /\ slot_holds mz (p_value_b sp) (v3 cl).
+Proof. exact binding_slot_subset_sound. Qed.
+Print Assumptions C06_slot_subset_sound.
+
+(* Hence a field named by the attribute can be neither changed (as the 32 bytes stored) nor
+   removed: two credentials accepted for one claim both have it, with equal encodings. *)
+Theorem C06_named_field_bound :
+  forall (O : oracles) (c c' : cred) (cl : claim) (mz : mzview) (ty : string) (sl : slots)
+         (mz' : mzview) (ty' : string) (sl' : slots) (a : string) (sp : slots_paths) (p : string),
+  verify_binding O c cl = Ok tt -> verify_binding O c' cl = Ok tt ->
+  cred_view c = Ok (mz, ty, sl, true) -> cred_view c' = Ok (mz', ty', sl', true) ->
+  get_serialization_attr c ty = Ok a -> get_serialization_attr c' ty' = Ok a ->
+  parse_serialization_attr a = Ok sp ->
+  p <> ""%string -> In p [p_index_a sp; p_index_b sp; p_value_a sp; p_value_b sp] ->
+  exists v v', m_field mz p = Ok v /\ m_field mz' p = Ok v' /\ v mod 2 ^ 256 = v' mod 2 ^ 256.
+Proof. exact binding_named_field_bound. Qed.
+Print Assumptions C06_named_field_bound.
+
+(* The two seeded variants of parseSlots do not have this property (witnesses):
+   isEmpty without the ValueB conjunct binds nothing for `iden3:v1:slotValueB=score` (C06-l);
+   a filler that leaves the slot zero for an absent field cannot tell score = 0 from no score (C06-n). *)
+Theorem C06_slots_without_value_b_refuted :
+  exists (attr : string) (v v' : Z), v <> v' /\
+    parse_slots_with is_empty_without_value_b fill_slot
+      (SlotEx.cred_with attr (SlotEx.score v)) (SlotEx.mzf (SlotEx.score v)) "urn:T" =
+    parse_slots_with is_empty_without_value_b fill_slot
+      (SlotEx.cred_with attr (SlotEx.score v')) (SlotEx.mzf (SlotEx.score v')) "urn:T" /\
+    parse_slots (SlotEx.cred_with attr (SlotEx.score v)) (SlotEx.mzf (SlotEx.score v)) "urn:T" <>
+    parse_slots (SlotEx.cred_with attr (SlotEx.score v')) (SlotEx.mzf (SlotEx.score v')) "urn:T".
+Proof. exact slots_without_value_b_refuted. Qed.
+Print Assumptions C06_slots_without_value_b_refuted.
+
+Theorem C06_slots_absent_is_zero_refuted :
+  exists (attr : string),
+    parse_slots_with paths_is_empty fill_slot_absent_is_zero
+      (SlotEx.cred_with attr (SlotEx.score 0)) (SlotEx.mzf (SlotEx.score 0)) "urn:T" =
+    parse_slots_with paths_is_empty fill_slot_absent_is_zero
+      (SlotEx.cred_with attr SlotEx.no_score) (SlotEx.mzf SlotEx.no_score) "urn:T" /\
+    is_ok (parse_slots (SlotEx.cred_with attr (SlotEx.score 0)) (SlotEx.mzf (SlotEx.score 0)) "urn:T") = true /\
+    is_ok (parse_slots (SlotEx.cred_with attr SlotEx.no_score) (SlotEx.mzf SlotEx.no_score) "urn:T") = false.
+Proof. exact slots_absent_is_zero_refuted. Qed.
+Print Assumptions C06_slots_absent_is_zero_refuted.
+
 (* merklized claims: the two documents have the same entry set (as a multiset of
    (key, value) leaves inserted into the sparse Merkle tree), or the run exhibits
    an explicit Poseidon collision.  [l], [l'] are the entry lists, [t], [t'] the trees
